@@ -12,6 +12,7 @@ CONSTANTS
   T = 2
   MaxTime = 0
   EarlyCancel = FALSE
+  MultiChunk = FALSE
   NoTimeouts = TRUE
   Mode = "script"
   SymBreak = TRUE
@@ -21,7 +22,8 @@ CONSTANTS
   Dev_KeyMask = FALSE
   Dev_NoTypeCheck = FALSE
   Dev_NoPopOnTimeout = FALSE
+  Dev_DropChunksOnTimeout = FALSE
 INIT Init
 NEXT Next
-INVARIANTS InvOwnResponse InvNoShare InvTypeError InvFaultError InvSlotFreed InvGateOwned InvEmit
+INVARIANTS InvOwnResponse InvNoShare InvTypeError InvFaultError InvSlotFreed InvGateOwned InvNoChanErr InvEmit
 CHECK_DEADLOCK FALSE
